@@ -121,8 +121,8 @@ type Obs struct {
 	// handshake stream: the plugin under test was activated; why the plugin connecting after it was not
 	Activated bool   `json:"activated"`
 	LateErr   string `json:"late_err"`
-	Fail    string `json:"fail"`
-	Panic   string `json:"panic"`
+	Fail      string `json:"fail"`
+	Panic     string `json:"panic"`
 }
 
 var names = []string{"a", "b", "c", "d", "e"}
@@ -480,6 +480,9 @@ func mk(ev, pos int, f Fault, raw bool) *In {
 
 func emit(w *lineio.Writer, jobs []*rt.Job) {
 	for _, j := range jobs {
+		if j.Skipped {
+			continue
+		}
 		var obs interface{} = j.Obs
 		switch {
 		case j.Crashed:
